@@ -2,7 +2,7 @@
     the solver state by the same transposition, and one [update] over the reals keeps the coefficients in their
     box and preserves the equality constraint sum_i y_i alpha_i (and sum_i alpha_i for a same-class pair). *)
 From Coq Require Import List NArith Arith Reals Lra Lia Bool Permutation FinFun.
-From LinfaVerif Require Import Common.Num Common.QF C13.Model.
+From LinfaVerif Require Import Common.Num Common.QF C13.Model C13.SpecStep.
 Import ListNotations.
 
 (** * setn / swapn *)
@@ -27,8 +27,6 @@ Qed.
 
 Lemma swapn_length {A} (d : A) l i j : length (swapn d l i j) = length l.
 Proof. unfold swapn. rewrite !setn_length. reflexivity. Qed.
-
-Definition transp (i j k : nat) : nat := if (k =? j)%nat then i else if (k =? i)%nat then j else k.
 
 Lemma nth_swapn {A} (d : A) l i j k : (i < length l)%nat -> (j < length l)%nat ->
   nth k (swapn d l i j) d = nth (transp i j k) l d.
@@ -77,37 +75,26 @@ Qed.
 Section Swap.
 Context {F : Type} (o : NumOps F).
 
-(* everything the solver keeps per position *)
-Definition srow := (nat * (F * (F * (F * (F * (F * (bool * (nat * bool))))))))%type.
-Definition rows (s : state (F := F)) : list srow :=
-  combine (sSet s) (combine (sA s) (combine (sG s) (combine (sGbar s) (combine (sP s) (combine (sU s)
-    (combine (sT s) (combine (sKi s) (sKs s)))))))).
-Definition drow : srow := (O, (zero o, (zero o, (zero o, (zero o, (zero o, (true, (O, true)))))))).
-
-Definition consistent (n : nat) (s : state (F := F)) : Prop :=
-  length (sSet s) = n /\ length (sA s) = n /\ length (sG s) = n /\ length (sGbar s) = n /\ length (sP s) = n /\
-  length (sU s) = n /\ length (sT s) = n /\ length (sKi s) = n /\ length (sKs s) = n.
-
-Lemma swap_rows n s i j : consistent n s ->
-  rows (swap o s i j) = swapn drow (rows s) i j.
+Lemma swap_rows n (s : state (F := F)) i j : consistent n s ->
+  rows (swap o s i j) = swapn (drow o) (rows s) i j.
 Proof.
-  intros (L1 & L2 & L3 & L4 & L5 & L6 & L7 & L8 & L9). unfold rows, swap, drow. cbn [sSet sA sG sGbar sP sU sT sKi sKs].
+  intros (L1 & L2 & L3 & L4 & L5 & L6 & L7 & L8 & L9). unfold rows, swap, drow, srow. cbn [sSet sA sG sGbar sP sU sT sKi sKs].
   repeat (rewrite swapn_combine by (rewrite ?combine_length; lia)). reflexivity.
 Qed.
 
-Lemma rows_length n s : consistent n s -> length (rows s) = n.
-Proof. intros (L1 & L2 & L3 & L4 & L5 & L6 & L7 & L8 & L9). unfold rows. rewrite !combine_length. lia. Qed.
+Lemma rows_length n (s : state (F := F)) : consistent n s -> length (rows s) = n.
+Proof. intros (L1 & L2 & L3 & L4 & L5 & L6 & L7 & L8 & L9). unfold rows, srow. rewrite !combine_length. lia. Qed.
 
-Lemma swap_consistent n s i j : consistent n s -> consistent n (swap o s i j).
+Lemma swap_consistent n (s : state (F := F)) i j : consistent n s -> consistent n (swap o s i j).
 Proof.
   intros (L1 & L2 & L3 & L4 & L5 & L6 & L7 & L8 & L9). unfold consistent, swap.
   cbn [sSet sA sG sGbar sP sU sT sKi sKs]. rewrite !swapn_length. repeat split; assumption.
 Qed.
 
-Theorem swap_keeps_consistent_l : forall n s i j, consistent n s -> (i < n)%nat -> (j < n)%nat ->
+Theorem swap_keeps_consistent_l : forall n (s : state (F := F)) i j, consistent n s -> (i < n)%nat -> (j < n)%nat ->
   consistent n (swap o s i j) /\
-  rows (swap o s i j) = swapn drow (rows s) i j /\
-  (forall k, nth k (rows (swap o s i j)) drow = nth (transp i j k) (rows s) drow) /\
+  rows (swap o s i j) = swapn (drow o) (rows s) i j /\
+  (forall k, nth k (rows (swap o s i j)) (drow o) = nth (transp i j k) (rows s) (drow o)) /\
   Permutation (rows s) (rows (swap o s i j)) /\
   sNact (swap o s i j) = sNact s /\ sUnshrink (swap o s i j) = sUnshrink s /\ sR (swap o s i j) = sR s.
 Proof.
@@ -123,12 +110,6 @@ End Swap.
 (** * update over the reals *)
 Local Open Scope R_scope.
 Notation oR := R_ops.
-
-Definition sgnb (b : bool) : R := if b then 1 else -1.
-(* sum_k y_k alpha_k *)
-Fixpoint ydot (T : list bool) (A : list R) : R :=
-  match T, A with t :: T', a :: A' => sgnb t * a + ydot T' A' | _, _ => 0 end.
-Definition boxed (A U : list R) : Prop := forall k, (k < length A)%nat -> 0 <= nth k A 0 <= nth k U 0.
 
 Lemma ydot_setn : forall T A k v, (k < length A)%nat -> length T = length A ->
   ydot T (setn A k v) = ydot T A + sgnb (nth k T true) * (v - nth k A 0).
@@ -179,19 +160,21 @@ Proof. destruct c; reflexivity. Qed.
 Lemma sT_if_Gbar (c : bool) (s : state (F := R)) v : sT (if c then upd_Gbar s v else s) = sT s.
 Proof. destruct c; reflexivity. Qed.
 
-Lemma update_fields inf tiny (P : problem (F := R)) s i j :
+Lemma update_fields tiny (P : problem (F := R)) s i j :
   let na := sNact s in
   let pr := upd_pair tiny (negb (Bool.eqb (nth i (sT s) true) (nth j (sT s) true)))
               (nthF oR (sA s) i) (nthF oR (sA s) j) (nthF oR (sU s) i) (nthF oR (sU s) j)
               (nthF oR (sG s) i) (nthF oR (sG s) j) (selfd oR P s i) (selfd oR P s j)
               (nthF oR (distances oR P s i na) j) in
-  sA (update oR inf tiny P s i j) = setn (setn (sA s) i (fst pr)) j (snd pr) /\
-  sU (update oR inf tiny P s i j) = sU s /\ sT (update oR inf tiny P s i j) = sT s.
+  sA (update oR tiny P s i j) = setn (setn (sA s) i (fst pr)) j (snd pr) /\
+  sU (update oR tiny P s i j) = sU s /\ sT (update oR tiny P s i j) = sT s.
 Proof.
   cbv zeta. unfold update, upd_pair.
-  destruct (negb (Bool.eqb (nth i (sT s) true) (nth j (sT s) true)));
-  match goal with |- context [let '(a, b) := ?X in _] => destruct X as [ai0 aj0] end;
-  match goal with |- context [let '(a, b) := ?X in _] => destruct X as [ai1 aj1] end;
+  destruct (negb (Bool.eqb (nth i (sT s) true) (nth j (sT s) true))); cbv beta iota;
+  repeat (match goal with
+          | |- context [match ?X with _ => _ end] =>
+              match type of X with (R * R)%type => destruct X end
+          end; cbv beta iota);
   rewrite ?sA_if_Gbar, ?sU_if_Gbar, ?sT_if_Gbar; repeat split; reflexivity.
 Qed.
 
@@ -217,18 +200,18 @@ Proof.
     cmp_cases; cbn [fst snd]; lra.
 Qed.
 
-Theorem update_keeps_equality_l : forall inf tiny (P : problem (F := R)) s i j n,
+Theorem update_keeps_equality_l : forall tiny (P : problem (F := R)) s i j n,
   i <> j -> (i < n)%nat -> (j < n)%nat ->
   length (sA s) = n -> length (sU s) = n -> length (sT s) = n ->
   boxed (sA s) (sU s) ->
-  let s' := update oR inf tiny P s i j in
+  let s' := update oR tiny P s i j in
   boxed (sA s') (sU s') /\
   ydot (sT s') (sA s') = ydot (sT s) (sA s) /\
   (nth i (sT s) true = nth j (sT s) true -> Rsum (sA s') = Rsum (sA s)) /\
   sU s' = sU s /\ sT s' = sT s /\ length (sA s') = n.
 Proof.
-  intros inf tiny P s i j n Hij Hi Hj LA LU LT Hbox. cbv zeta.
-  destruct (update_fields inf tiny P s i j) as [EA [EU ET]]. cbv zeta in EA.
+  intros tiny P s i j n Hij Hi Hj LA LU LT Hbox. cbv zeta.
+  destruct (update_fields tiny P s i j) as [EA [EU ET]]. cbv zeta in EA.
   set (differ := negb (Bool.eqb (nth i (sT s) true) (nth j (sT s) true))) in *.
   match type of EA with _ = setn (setn _ _ (fst ?X)) _ (snd ?X) => set (pr := X) in * end.
   assert (Bi : 0 <= nthF oR (sA s) i <= nthF oR (sU s) i) by (apply Hbox; lia).
@@ -267,14 +250,15 @@ Proof.
   - intros [|[|k]] Hk; simpl in *; try lia; lra.
   - unfold consistent; simpl; repeat split; reflexivity.
 Qed.
-Example exS_update : sA (update oR 0 (1/10) exP exS 0 1) = [/2; /2].
+Example exS_update : sA (update oR (1/10) exP exS 0 1) = [/2; /2].
 Proof.
-  destruct (update_fields 0 (1/10) exP exS 0 1) as [EA _]. cbv zeta in EA. rewrite EA. clear EA.
+  destruct (update_fields (1/10) exP exS 0 1) as [EA _]. cbv zeta in EA. rewrite EA. clear EA.
   unfold upd_pair, gtb, exS, exP, selfd, distances, kcolumn, mk_problem, diag, nthF, two.
   cbn [negb Bool.eqb nth sT sA sU sG sKi sKs sNact pK pKdiag map combine firstn seq length fst snd xorb
        add sub mul div opp zero one ltb leb oR R_ops].
-  assert (Q : 1 + 1 + (1 + 1) * - -1 = 4) by lra.
   cbn [nth].
+  assert (Q4 : Rleb (1 + 1 + (1 + 1) * - -1) 0 = false) by (apply Rleb_false; lra).
+  rewrite Q4. replace (1 + 1 + (1 + 1) * - -1) with 4 by lra.
   repeat match goal with
   | |- context [Rltb ?a ?b] => let E := fresh "E" in destruct (Rltb a b) eqn:E;
         [apply Rltb_true in E | apply Rltb_false in E]; try lra
